@@ -266,6 +266,10 @@ def amen_solve(A, b, nswp=22, x0=None, eps=1e-10, rmax=32768, max_full=500, kick
     if A.N != b.N:
         raise ShapeMismatch('Dimension mismatch.')
 
+    if b.norm() == 0:
+        # A x = 0: the solution is the zero tensor (the sweeps work with residuals relative to the norm of b)
+        return torchtt.zeros(b.N, dtype=b.cores[0].dtype, device=b.cores[0].device)
+
     if use_cpp and _flag_use_cpp:
         if x0 == None:
             x_cores = []
